@@ -223,7 +223,8 @@ def linkStep (cv : Conv V) (fetch : Str → Option (Doc V)) (doc : Doc V) (p : L
       | some t =>
         -- if self._link is not None: self.clean();  self._link = new_value
         let l1 := cleanSec cv (deref fetch doc) (height l + 1) l
-        -- self.merge(new_section, strict=False)
+        -- self._merge(new_section, False, True): always recorded (`record := true`; `l1` is
+        -- cleaned, not merged, so `Ref.eff` leaves the flag on)
         let r := merge cv false { url := none, path := tp } l1 t
         (updAt (fun _ => r.1) p doc, r.2)
     | none, some txt =>
